@@ -199,3 +199,259 @@ Proof.
     + right. destruct (S2 H) as (cs' & E1 & E2 & E3). rewrite E1.
       split; [exact Hn|]. split; [exact H|]. exists cs'. cbv zeta. split; [reflexivity|]. split; assumption.
 Qed.
+
+(* ---------- mpt_type_basic_add ---------- *)
+Lemma basic_refines r sz : inv r ->
+  sstep (abs r) (OpBasicAdd sz) = (abs (fst (basic_add r sz)), obs (out_int (snd (basic_add r sz)))).
+Proof.
+  intros I. ranges. pose proof dyn_capacity_exact as CE. pose proof dslots_N as DN.
+  cbn [sstep]. unfold s_register. cbv zeta. cbn [s_next kind_last]. rewrite abs_nbasic.
+  pose proof (basic_add_inv r sz I) as [I' _].
+  destruct (basic_add_cases r sz) as [[E Hfull]|(sz' & E & Hsz & Hl)]; rewrite E in *;
+    cbn [fst snd out_int obs] in *.
+  - destruct (N.ltb_spec g_DynamicMax (g_DynamicBase + N.of_nat (length (r_dyn r)))); [reflexivity|lia].
+  - destruct (N.ltb_spec g_DynamicMax (g_DynamicBase + N.of_nat (length (r_dyn r)))); [lia|].
+    subst sz'. remember (if sz =? 0 then g_PtrSize else sz) as v eqn:Hv. clear Hv.
+    remember (g_DynamicBase + N.of_nat (length (r_dyn r))) as id eqn:Hid.
+    set (r' := mkreg (r_iface r) (r_ipos r) (r_dyn r ++ [v]) (r_meta r) (r_gen r)) in *.
+    f_equal. symmetry. cbn [s_bump].
+    destruct (abs_register r r' KBasic id (plain v) None) as [Ht Hn].
+    + lia.
+    + unfold descr. rewrite interface_traits_out, metatype_traits_out by lia. rewrite tt_dyn by lia.
+      replace (N.to_nat (id - g_DynamicBase)) with (length (r_dyn r)) by lia.
+      rewrite Nat.leb_refl. reflexivity.
+    + unfold descr. rewrite interface_traits_out, metatype_traits_out by lia. rewrite tt_dyn by lia.
+      unfold r'. cbn [r_dyn]. rewrite app_length. cbn [length].
+      replace (N.to_nat (id - g_DynamicBase)) with (length (r_dyn r)) by lia.
+      destruct (Nat.leb_spec (length (r_dyn r) + 1) (length (r_dyn r))); [lia|].
+      rewrite nth_error_app2 by lia. rewrite Nat.sub_diag. cbn [nth_error].
+      assert (D : is_dynamic id = true) by (unfold is_dynamic; ncmp; reflexivity).
+      rewrite D. reflexivity.
+    + intros i Hi Hne. apply descr_congr; [reflexivity|reflexivity|].
+      apply type_traits_congr; [reflexivity|reflexivity| |reflexivity].
+      intros Hd. unfold is_dynamic in Hd. apply andb_true_iff in Hd. destruct Hd as [A B].
+      apply N.leb_le in A, B.
+      unfold dyn_lookup, r'. cbn [r_dyn]. cbv zeta. rewrite app_length. cbn [length].
+      remember (N.to_nat (i - g_DynamicBase)) as pos eqn:Hpos.
+      destruct (Nat.lt_ge_cases pos (length (r_dyn r))).
+      * destruct (Nat.leb_spec (length (r_dyn r) + 1) pos); [lia|].
+        destruct (Nat.leb_spec (length (r_dyn r)) pos); [lia|].
+        rewrite nth_error_app1 by lia. reflexivity.
+      * destruct (Nat.leb_spec (length (r_dyn r) + 1) pos); [|lia].
+        destruct (Nat.leb_spec (length (r_dyn r)) pos); [|lia]. reflexivity.
+    + intros m Hm. discriminate.
+    + apply sreg_eq; [exact Ht|exact Hn| | | |];
+        rewrite ?abs_nbasic, ?abs_ngeneric, ?abs_niface, ?abs_nmeta; unfold r';
+        cbn [r_dyn r_gen r_ipos r_meta]; [|reflexivity|reflexivity|reflexivity].
+      rewrite app_length. cbn [length]. lia.
+Qed.
+
+(* ---------- mpt_type_add ---------- *)
+Lemma nth_error_snoc_other {A} (l : list A) x k : k <> length l -> nth_error (l ++ [x]) k = nth_error l k.
+Proof.
+  intros H. destruct (Nat.lt_ge_cases k (length l)).
+  - apply nth_error_app1. assumption.
+  - transitivity (@None A); [|symmetry]; apply nth_error_None; [rewrite app_length; simpl|]; lia.
+Qed.
+
+Lemma generic_refines r t : inv r ->
+  sstep (abs r) (OpTypeAdd t) = (abs (fst (type_add r t)), obs (out_int (snd (type_add r t)))).
+Proof.
+  intros I. ranges. destruct t as [t|]; [|reflexivity].
+  cbn [sstep]. destruct (N.eqb_spec (ti_size t) 0) as [Hz|Hz].
+  - unfold type_add. rewrite (proj2 (N.eqb_eq _ _) Hz). reflexivity.
+  - pose proof (type_add_inv r (Some t) I) as [I' _].
+    unfold s_register. cbv zeta. cbn [s_next kind_last]. rewrite abs_ngeneric.
+    destruct (type_add_precise r t I Hz) as [[Hfull E]|(Hroom & cs' & E & Hcat & Hok)]; rewrite E in *;
+      cbn [fst snd out_int obs] in *.
+    + destruct (N.ltb_spec g_ValueMax (g_ValueAdd + N.of_nat (length (concat (r_gen r))))); [reflexivity|lia].
+    + destruct (N.ltb_spec g_ValueMax (g_ValueAdd + N.of_nat (length (concat (r_gen r))))); [lia|].
+      remember (g_ValueAdd + N.of_nat (length (concat (r_gen r)))) as id eqn:Hid.
+      set (r' := mkreg (r_iface r) (r_ipos r) (r_dyn r) (r_meta r) cs') in *.
+      f_equal. symmetry. cbn [s_bump].
+      destruct (abs_register r r' KGeneric id t None) as [Ht Hn].
+      * lia.
+      * unfold descr. rewrite interface_traits_out, metatype_traits_out by lia. rewrite tt_gen by lia.
+        rewrite wsub_small by lia. rewrite gen_lookup_flat by (assumption || lia).
+        replace (N.to_nat (id - g_ValueAdd)) with (length (concat (r_gen r))) by lia.
+        destruct (nth_error (concat (r_gen r)) (length (concat (r_gen r)))) eqn:E2; [|reflexivity].
+        assert (length (concat (r_gen r)) < length (concat (r_gen r)))%nat by (apply nth_error_Some; congruence).
+        lia.
+      * unfold descr. rewrite interface_traits_out, metatype_traits_out by lia. rewrite tt_gen by lia.
+        rewrite wsub_small by lia. rewrite gen_lookup_flat by (assumption || lia).
+        unfold r'. cbn [r_gen]. rewrite Hcat.
+        replace (N.to_nat (id - g_ValueAdd)) with (length (concat (r_gen r))) by lia.
+        rewrite nth_error_app2 by lia. rewrite Nat.sub_diag. cbn [nth_error].
+        assert (D : is_dynamic id = false) by (unfold is_dynamic; ncmp; reflexivity).
+        assert (G : (g_ValueAdd <=? id) = true) by (apply N.leb_le; lia).
+        rewrite D, G. reflexivity.
+      * intros i Hi Hne. apply descr_congr; [reflexivity|reflexivity|].
+        apply type_traits_congr; [reflexivity|reflexivity|intros; reflexivity|].
+        rewrite !gen_lookup_flat by (assumption || apply wsub_lt).
+        unfold r'. cbn [r_gen]. rewrite Hcat. f_equal. apply nth_error_snoc_other.
+        destruct (N.lt_ge_cases i g_ValueAdd).
+        -- unfold wsub. rewrite N.mod_small by lia. lia.
+        -- rewrite wsub_small by lia. lia.
+      * intros m Hm. discriminate.
+      * apply sreg_eq; [exact Ht|exact Hn| | | |];
+          rewrite ?abs_nbasic, ?abs_ngeneric, ?abs_niface, ?abs_nmeta; unfold r';
+          cbn [r_dyn r_gen r_ipos r_meta]; [reflexivity| |reflexivity|reflexivity].
+        rewrite Hcat, app_length. cbn [length]. lia.
+Qed.
+
+(* ---------- mpt_type_interface_add ---------- *)
+Lemma iface_add_refines r n : inv r ->
+  sstep (abs r) (OpIfaceAdd n) =
+  (abs (fst (interface_add r n)), obs (out_named (snd (interface_add r n)))).
+Proof.
+  intros I. ranges. pose proof capacity_fit as [CF _]. pose proof islots_N as SN.
+  pose proof min_name_pos as [MP _].
+  cbn [sstep]. unfold s_register_named.
+  pose proof (interface_add_inv r n I) as [I' _].
+  destruct (interface_add_precise r n I) as [[Hfull E]|[(Hroom & (m & -> & Hbad) & E)|(Hroom & Hn & E)]];
+    cbv zeta in E; rewrite E in *; cbn [fst snd out_named obs] in *.
+  - destruct (s_name_ok (abs r) g_MinIfaceName n); [|reflexivity].
+    unfold s_register. cbv zeta. cbn [s_next kind_last]. rewrite abs_niface.
+    destruct (N.ltb_spec g_InterfaceMax (g_InterfaceBase + N.of_nat (r_ipos r))); [reflexivity|lia].
+  - rewrite name_ok_false by assumption. reflexivity.
+  - rewrite name_ok_true by assumption.
+    unfold s_register. cbv zeta. cbn [s_next kind_last]. rewrite abs_niface.
+    destruct (N.ltb_spec g_InterfaceMax (g_InterfaceBase + N.of_nat (r_ipos r))); [lia|].
+    remember (g_InterfaceBase + N.of_nat (r_ipos r)) as id eqn:Hid.
+    set (e := mkne n id ptr_traits) in *.
+    set (r' := mkreg (firstn (r_ipos r) (r_iface r) ++ Some e :: skipn (S (r_ipos r)) (r_iface r))
+                     (S (r_ipos r)) (r_dyn r) (r_meta r) (r_gen r)) in *.
+    cbn [ne_type ne_name ne_traits e].
+    assert (Hlen : (r_ipos r < length (r_iface r))%nat) by (rewrite (inv_ilen r I); assumption).
+    assert (Hnth : forall j, nth_error (r_iface r') j =
+                     if (j =? r_ipos r)%nat then Some (Some e) else nth_error (r_iface r) j).
+    { intros j. unfold r'. cbn [r_iface]. apply nth_error_set. assumption. }
+    f_equal. symmetry. cbn [s_bump].
+    destruct (abs_register r r' KInterface id ptr_traits n) as [Ht Hnm].
+    + lia.
+    + unfold descr. rewrite tt_iface by lia. rewrite (interface_traits_slot r id I) by lia.
+      replace (N.to_nat (id - g_InterfaceBase)) with (r_ipos r) by lia.
+      destruct (nth_error (r_iface r) (r_ipos r)) as [[x|]|] eqn:E2.
+      * destruct (inv_islot r I _ x E2). lia.
+      * rewrite metatype_traits_out by lia. reflexivity.
+      * rewrite metatype_traits_out by lia. reflexivity.
+    + apply (descr_iface r' id e). rewrite (interface_traits_slot r' id I') by lia.
+      replace (N.to_nat (id - g_InterfaceBase)) with (r_ipos r) by lia.
+      rewrite Hnth, Nat.eqb_refl. reflexivity.
+    + intros i Hi Hne.
+      assert (Hif : interface_traits r' i = interface_traits r i).
+      { destruct (N.lt_ge_cases i g_InterfaceBase); [rewrite !interface_traits_out by lia; reflexivity|].
+        destruct (N.lt_ge_cases g_InterfaceMax i); [rewrite !interface_traits_out by lia; reflexivity|].
+        rewrite (interface_traits_slot r' i I'), (interface_traits_slot r i I) by lia. rewrite Hnth.
+        destruct (Nat.eqb_spec (N.to_nat (i - g_InterfaceBase)) (r_ipos r)); [lia|reflexivity]. }
+      apply descr_congr; [exact Hif|reflexivity|].
+      apply type_traits_congr; [exact Hif|reflexivity|intros; reflexivity|reflexivity].
+    + apply fresh_name; [exact I|]. intros m Hm. destruct (Hn m Hm) as (_ & A & B). auto.
+    + apply sreg_eq; [exact Ht|exact Hnm| | | |];
+        rewrite ?abs_nbasic, ?abs_ngeneric, ?abs_niface, ?abs_nmeta; unfold r';
+        cbn [r_dyn r_gen r_ipos r_meta]; [reflexivity|reflexivity| |reflexivity].
+      lia.
+Qed.
+
+(* ---------- mpt_type_metatype_add ---------- *)
+Lemma meta_add_refines r n : inv r ->
+  sstep (abs r) (OpMetaAdd n) =
+  (abs (fst (metatype_add r n)), obs (out_named (snd (metatype_add r n)))).
+Proof.
+  intros I. ranges. pose proof min_name_pos as [_ MP]. pose proof (inv_mbase r I) as MB.
+  cbn [sstep]. unfold s_register_named.
+  pose proof (metatype_add_inv r n I) as [I' _].
+  destruct (metatype_add_precise r n I)
+    as [[(m & -> & Hbad) E]|[(Hn & Hfull & E)|(Hn & Hroom & cs' & E & Hcat & Hok)]];
+    cbv zeta in E; rewrite E in *; cbn [fst snd out_named obs] in *.
+  - rewrite name_ok_false by assumption. reflexivity.
+  - rewrite name_ok_true by assumption.
+    unfold s_register. cbv zeta. cbn [s_next kind_last]. rewrite abs_nmeta.
+    destruct (N.ltb_spec g_MetaPtrMax (g_MetaPtrBase + N.of_nat (length (concat (r_meta r))))); [reflexivity|lia].
+  - rewrite name_ok_true by assumption.
+    unfold s_register. cbv zeta. cbn [s_next kind_last]. rewrite abs_nmeta.
+    destruct (N.ltb_spec g_MetaPtrMax (g_MetaPtrBase + N.of_nat (length (concat (r_meta r))))); [lia|].
+    cbv zeta in Hcat.
+    remember (g_MetaPtrBase + N.of_nat (length (concat (r_meta r)))) as id eqn:Hid.
+    set (e := mkne n id ptr_traits) in *.
+    set (r' := mkreg (r_iface r) (r_ipos r) (r_dyn r) cs' (r_gen r)) in *.
+    cbn [ne_type ne_name ne_traits e].
+    f_equal. symmetry. cbn [s_bump].
+    destruct (abs_register r r' KMetatype id ptr_traits n) as [Ht Hnm].
+    + lia.
+    + unfold descr. rewrite interface_traits_out by lia. rewrite tt_meta by lia.
+      rewrite (metatype_traits_flat r id I) by lia.
+      replace (N.to_nat (id - g_MetaPtrBase)) with (length (concat (r_meta r))) by lia.
+      destruct (nth_error (concat (r_meta r)) (length (concat (r_meta r)))) eqn:E2; [|reflexivity].
+      assert (length (concat (r_meta r)) < length (concat (r_meta r)))%nat by (apply nth_error_Some; congruence).
+      lia.
+    + apply (descr_meta r' id e). rewrite (metatype_traits_flat r' id I') by lia.
+      unfold r'. cbn [r_meta]. rewrite Hcat.
+      replace (N.to_nat (id - g_MetaPtrBase)) with (length (concat (r_meta r))) by lia.
+      rewrite nth_error_app2 by lia. rewrite Nat.sub_diag. reflexivity.
+    + intros i Hi Hne.
+      assert (Hmt : metatype_traits r' i = metatype_traits r i).
+      { destruct (N.lt_ge_cases i g_MetaPtrBase); [rewrite !metatype_traits_out by lia; reflexivity|].
+        destruct (N.lt_ge_cases g_MetaPtrMax i); [rewrite !metatype_traits_out by lia; reflexivity|].
+        rewrite (metatype_traits_flat r' i I'), (metatype_traits_flat r i I) by lia.
+        unfold r'. cbn [r_meta]. rewrite Hcat. rewrite nth_error_snoc_other by lia. reflexivity. }
+      apply descr_congr; [reflexivity|exact Hmt|].
+      apply type_traits_congr; [reflexivity|exact Hmt|intros; reflexivity|reflexivity].
+    + apply fresh_name; [exact I|]. intros m Hm. destruct (Hn m Hm) as (_ & A & B). auto.
+    + apply sreg_eq; [exact Ht|exact Hnm| | | |];
+        rewrite ?abs_nbasic, ?abs_ngeneric, ?abs_niface, ?abs_nmeta; unfold r';
+        cbn [r_dyn r_gen r_ipos r_meta]; [reflexivity|reflexivity|reflexivity|].
+      rewrite Hcat, app_length. cbn [length]. lia.
+Qed.
+
+(* ---------- every operation ---------- *)
+Theorem step_refines r o : inv r -> op_wf o ->
+  let '(r', x) := step r o in inv r' /\ sstep (abs r) o = (abs r', obs x).
+Proof.
+  intros I W. pose proof (step_inv r o I) as [I' _]. destruct o; cbn [step] in *.
+  - pose proof (basic_refines r size I). destruct (basic_add r size) as [r' x]. split; assumption.
+  - pose proof (generic_refines r t I). destruct (type_add r t) as [r' x]. split; assumption.
+  - pose proof (iface_add_refines r n I). destruct (interface_add r n) as [r' x]. split; assumption.
+  - pose proof (meta_add_refines r n I). destruct (metatype_add r n) as [r' x]. split; assumption.
+  - split; [exact I|]. cbn [sstep op_wf] in *. rewrite traits_refines by assumption. reflexivity.
+  - split; [exact I|]. cbn [sstep]. rewrite iface_refines by assumption. reflexivity.
+  - split; [exact I|]. cbn [sstep]. rewrite meta_refines by assumption. reflexivity.
+  - split; [exact I|]. cbn [sstep]. rewrite opnamed_refines by assumption. reflexivity.
+  - split; [exact I|]. cbn [sstep]. rewrite alias_refines by assumption. reflexivity.
+  - split; [exact I|]. reflexivity.
+  - split; [exact I|]. reflexivity.
+  - split; [exact I|]. reflexivity.
+  - split; [exact I|]. cbn [sstep]. pose proof (msgvalfmt_nf f).
+    destruct (msgvalfmt_typeid f); [reflexivity|reflexivity|congruence].
+  - split; [exact I|]. reflexivity.
+  - split; [exact I|]. cbn [sstep]. rewrite sweep_refines by assumption. reflexivity.
+Qed.
+
+(* ---------- every history ---------- *)
+Theorem run_refines ops : forall r, inv r -> Forall op_wf ops ->
+  srun (abs r) ops = map obs (run r ops) /\
+  sexec (abs r) ops = abs (exec r ops) /\
+  inv (exec r ops).
+Proof.
+  induction ops as [|o ops IH]; intros r I W.
+  - cbn. auto.
+  - inversion W as [|? ? W1 W2]; subst. pose proof (step_refines r o I W1) as S.
+    unfold sexec, exec. cbn [srun run map fold_left].
+    destruct (step r o) as [r' x]. destruct S as [I' S]. rewrite S. cbn [fst map].
+    destruct (IH r' I' W2) as (A & B & C). rewrite A. auto.
+Qed.
+
+(* ---------- the fresh registry ----------
+   computed over the regenerated tables: the mechanism's built-in tables (core,
+   scalar, vector sizes, built-in interfaces, base metatype, managed types)
+   describe exactly the ids of g_ctype_sizes, each with the size of its C type,
+   and nothing else in 0 .. g_ValueMax *)
+Lemma abs_reg0 : abs reg0 = sreg0.
+Proof. vm_compute. reflexivity. Qed.
+
+Theorem fresh_refines ops : Forall op_wf ops ->
+  srun sreg0 ops = map obs (run reg0 ops) /\
+  sexec sreg0 ops = abs (exec reg0 ops).
+Proof.
+  intros W. rewrite <- abs_reg0. destruct (run_refines ops reg0 inv_reg0 W) as (A & B & _). auto.
+Qed.
